@@ -20,8 +20,8 @@ WITNESSES = [
      'type-level witness: for 29 adaptor/child positions (then, upon_*, let_*, sequence, when_all, finally, stop_when, materialize, into_variant, repeat/retry, unstoppable, with_query_value, on; depth <= 2; also through the debug-only _inject wrapper) a probe child sees the consumer\'s answers to a user-defined query, get_scheduler, get_allocator and get_stop_token, except for the single query the adaptor is documented to replace'),
     ('R-WITNESS-STOPTRAIT', ['C03', 'C04', 'C12'], 'stop_traits.cpp', None,
      'type-level witness: is_stop_never_possible_v is true exactly for tokens whose constexpr stop_possible() returns false (unstoppable_token) and false for inplace_stop_token and for tokens whose constexpr stop_possible() returns true; the inplace_stop_token_adapter keeps its forwarding state for every stoppable token'),
-    ('R-WITNESS-NOEXCEPT', ['C09', 'C08', 'C02', 'C20', 'C17'], 'noexcept_honesty.cpp', None,
-     'type-level witness: spawn_detached() is not noexcept when it has to allocate the operation state (bad_alloc must propagate out of spawn instead of terminating); connect() of an adaptor is not noexcept when moving the receiver into the operation state can throw - with the same answer in every build configuration (debug routes connect through the async-stack wrapper); bulk_transform\'s connect is not noexcept when its source\'s connect can throw'),
+    ('R-WITNESS-NOEXCEPT', ['C09', 'C08', 'C02', 'C20', 'C17', 'C05'], 'noexcept_honesty.cpp', None,
+     'type-level witness: spawn_detached() is not noexcept when it has to allocate the operation state (bad_alloc must propagate out of spawn instead of terminating); connect() of an adaptor is not noexcept when moving the receiver into the operation state can throw - with the same answer in every build configuration (debug routes connect through the async-stack wrapper); bulk_transform\'s connect is not noexcept when its source\'s connect can throw; the receiver CPOs set_value/set_next and is_nothrow_receiver_of_v/is_nothrow_next_receiver_v are false for member or tag_invoke customisations that can throw (bulk_schedule, then, find_if decide from them whether to catch)'),
     ('R-WITNESS-HOP', ['C10', 'C11'], 'affinity_hop.cpp', ['d20', 'r20', 'v20'],
      'type-level witness (C++20): the hop back to the scheduler that with_scheduler_affinity() appends to a non-affine sender (every co_await in a task<>) is started with unstoppable_token, while the awaited sender still sees the consumer\'s stop token; affine senders are returned unchanged'),
     ('R-WITNESS-TRAITS', ['C11', 'C05'], 'traits.cpp', None,
